@@ -127,7 +127,10 @@ Ref refProto(const S &b) {
     S raw4; struct in6_addr a6;
     const bool s4 = strictV4(addr, raw4), p6 = addr.find('\0') == S::npos && inet_pton(AF_INET6, addr.c_str(), &a6) == 1;
     if (!s4 && !p6) {
+        const size_t pc = addr.find('%');
+        struct in6_addr scoped;
         if (numericHost(addr)) grey = true; // inet_aton spellings of IPv4: value arguably in range, spelling not canonical
+        else if (pc != S::npos && pc > 0 && inet_pton(AF_INET6, addr.substr(0, pc).c_str(), &scoped) == 1) grey = true; // RFC 4007 zone id after a valid IPv6 literal: getaddrinfo() takes it
         else { r.kind = Ref::MustReject; r.why = "address-syntax"; r.shape = "badaddr"; return r; }
     } else if (six != p6 || (!six) != s4) {
         if (p6 && !six && IN6_IS_ADDR_V4MAPPED(&a6)) grey = true; // IPv4 written as a mapped IPv6 literal under proto 1
@@ -285,8 +288,8 @@ int drive(Ctx &ctx) {
         auto go = [&](const S &w) { ctx.begin(w); run(ctx, w); ++n; };
         for (int pre = 0; pre < 2; ++pre) {
             for (const char *p : {"0", "1", "1023", "1024", "4464", "65534", "65535", "65536", "65537", "70000", "131071", "4294967295", "4294967296", "4294967297", "4294967376", "-1", "", "80abc"}) {
-                go("E 0 0 " + std::to_string(pre) + "\n|1|10.1.2.3|" + p + "|");
-                go("E 0 0 " + std::to_string(pre) + "\n|2|2001:db8::5|" + p + "|");
+                go("E " + std::to_string(pre) + " 0 0" + "\n|1|10.1.2.3|" + p + "|");
+                go("E " + std::to_string(pre) + " 0 0" + "\n|2|2001:db8::5|" + p + "|");
             }
             for (int p1 = -1; p1 <= 257; ++p1) for (int p2 : {-1, 0, 1, 255, 256}) {
                 if (p1 > 2 && p1 < 254) continue;
